@@ -83,9 +83,26 @@ def run(tier="quick"):
             if co_ == (pb, 0) and a2.get("k") == "ref":
                 just_vars.add(a2["d"])
 
+    # where the table entry the search stopped at is known to have a name (a built-in matched) - as a must-fact of the nullness
+    # dataflow, so it does not matter whether the skip sits in an arm of that test or behind an early exit on its negation
+    matched_at = set()
+    ncfg_ = nullness.prepared_cfg(f, NORETURN)
+
+    def _vis_matched(state, x, blk):
+        if any(f_[0] == "nn" and "name" in str(f_[1]) for f_ in state):
+            matched_at.add(x["i"])
+    if ncfg_ is not None:
+        flow.forward(ncfg_, frozenset(), nullness.transfer, refine=nullness.refine, visit=_vis_matched)
+
     def justified(n, state):
         for x in walk(n):
             if x.get("k") == "ref" and x.get("d") in just_vars:
+                return True
+        if n["i"] in matched_at:
+            # ... for the skips in the main loop's own body only: a nested loop (the table search itself, the collection of the
+            # call's arguments) must justify its steps by its own tests
+            loops_ = [anc for anc in f.ancestors(n) if anc.get("k") in ("for", "while", "do")]
+            if len(loops_) == 1:
                 return True
         # the two skips over "(" / " )" right after a builtin name matched: the match test compared pbuff[l] (and pbuff[l+1])
         # with '(' / ' ' / ')', so those bytes are not the terminator
@@ -281,9 +298,13 @@ def run(tier="quick"):
     # ---- V5 effects
     closure = [f] + [g for g in u.functions.values() if g.name.startswith("builtin_") or g.name in ("spifconf_get_var", "spifconf_put_var")]
     badg = []
+    # constant data (a const-qualified object with an initialiser: a lookup table) is not state: nothing can be carried in it
+    const_data = {gl["n"] for gl in u.all_globals if gl.get("init") is not None and re.match(r"\s*(static\s+)?const\b", (gl.get("tc") or gl.get("t") or ""))
+                  and "*" not in (gl.get("tc") or gl.get("t") or "")}
     for g in closure:
         for x in walk(g.body):
-            if x.get("k") == "ref" and x.get("rk") in ("global", "slocal") and x.get("n") not in ALLOWED_GLOBALS and not x.get("n", "").startswith("__"):
+            if x.get("k") == "ref" and x.get("rk") in ("global", "slocal") and x.get("n") not in ALLOWED_GLOBALS and not x.get("n", "").startswith("__") \
+                    and x.get("n") not in const_data:
                 badg.append((g, x))
     chk.ob("V5", f.name, "effect-set", not badg, loc=badg[0][0].loc(badg[0][1]) if badg else f.loc(f.body),
            detail="%s touches global `%s`, outside the declared set of the expansion (builtins table, variable store, file state for messages, "
@@ -371,6 +392,49 @@ def run(tier="quick"):
             chk.ob("V7", fsw.name, "escape:\\%s" % chr(lv), cv == ESC_REF[lv], loc=fsw.loc(q),
                    detail="%s turns backslash-%s into character %d; the control character that letter names is %d" % (fsw.name, chr(lv), cv, ESC_REF[lv]),
                    proof="\\%s -> %d" % (chr(lv), cv))
+    # the same table kept as constant data: values[strchr(letters, c) - letters] with two parallel constant strings
+    def const_text(name):
+        for gl in u.all_globals:
+            if gl["n"] == name and gl.get("init") is not None and "const" in (gl.get("tc") or gl.get("t") or ""):
+                iv = X.strip(gl["init"])
+                if iv is not None and iv.get("k") == "str":
+                    return iv.get("sv") or ""
+        return None
+    for g_ in unit_closure(f):
+        if g_.body is None:
+            continue
+        for x in walk(g_.body):
+            if x.get("k") != "index":
+                continue
+            vb, ix = X.strip(x["ch"][0]), X.strip(x["ch"][1])
+            if vb is None or ix is None or vb.get("k") != "ref" or vb.get("rk") not in ("global", "slocal"):
+                continue
+            if ix.get("k") != "bin" or ix.get("op") != "-":
+                continue
+            lb = X.strip(ix["ch"][1])
+            hit = X.strip(ix["ch"][0])
+            if lb is None or lb.get("k") != "ref" or lb.get("rk") not in ("global", "slocal") or hit is None:
+                continue
+            vals_t, lets_t = const_text(vb["n"]), const_text(lb["n"])
+            if vals_t is None or lets_t is None:
+                continue
+            # the position comes from a search of the letters table
+            srcs = [hit]
+            if hit.get("k") == "ref" and hit.get("rk") == "local":
+                srcs = [y["ch"][1] for y in walk(g_.body) if y.get("k") == "assign" and y.get("op") == "=" and (X.strip(y["ch"][0]) or {}).get("d") == hit["d"]]
+                srcs += [dc["init"] for y in walk(g_.body) if y.get("k") == "decl" for dc in y.get("decls", ()) if dc["d"] == hit["d"] and dc.get("init") is not None]
+            if not srcs or not all(any(X.callee_name(c) in ("strchr", "memchr", "__builtin_strchr") and (X.strip(c["ch"][1]) or {}).get("n") == lb["n"]
+                                       for c in X.calls_in(e_)) for e_ in srcs):
+                continue
+            lets_ = lets_t.split("\0")[0]
+            for i_, ch_ in enumerate(lets_):
+                if ord(ch_) in ESC_REF:
+                    cv = ord(vals_t[i_]) if i_ < len(vals_t) else None
+                    nesc += 1
+                    chk.ob("V7", g_.name, "escape:\\%s" % ch_, cv == ESC_REF[ord(ch_)], loc=g_.loc(x),
+                           detail="%s turns backslash-%s into character %s (table %s / %s); the control character that letter names is %d" % (
+                               g_.name, ch_, cv, lb["n"], vb["n"], ESC_REF[ord(ch_)]),
+                           proof="\\%s -> %s" % (ch_, cv))
     chk.count("escape_table_entries", nesc, floor=6)
     # ---- V8 a bracketed reference consumes its closing bracket: where an arm selected by an opening bracket ('{' or '(' after
     # the '$') scans up to the matching closer, the byte that ended the scan - the closer - is not the byte the main loop
@@ -416,6 +480,17 @@ def run(tier="quick"):
                         lab = case_label_of(f, lp)
                         if lab is not None and lab.get("k") == "case" and X.const_val(lab["val"]) == OPEN[kv]:
                             scans[cj["i"]] = (lp, kv)
+                        else:
+                            # the arm selected by the opener written as an if / else-if on the byte under the cursor
+                            for anc in f.ancestors(lp):
+                                if anc is main:
+                                    break
+                                if anc.get("k") == "if" and any(y is lp for y in walk(anc["then"])) and any(
+                                        y.get("k") == "bin" and y.get("op") == "==" and OPEN[kv] in (X.const_val(y["ch"][0]), X.const_val(y["ch"][1]))
+                                        and (nulcursor.byte_expr(y["ch"][0], cursors) or nulcursor.byte_expr(y["ch"][1], cursors) or (None,))[0] == pb
+                                        for y in walk(anc["cond"])):
+                                    scans[cj["i"]] = (lp, kv)
+                                    break
                     sb_ = X.strip(b_)
                     if kv is None and sb_ is not None and sb_.get("k") == "ref" and sb_.get("d") in closer_vars and nulcursor.byte_expr(a_, cursors) == (pb, 0):
                         scans[cj["i"]] = (lp, ("var", sb_["d"]))
